@@ -360,7 +360,7 @@ def references(ctx, tag, n_b, n_s):
 def unit(ctx, CS):
     from recognizers_text.extractor import ExtractResult
     r = ctx.rng('dateparser-unit')
-    refs = references(ctx, 'dateparser-refs', *((250, 150) if ctx.thorough else (30, 14)))
+    refs = references(ctx, 'dateparser-refs', *((250, 150) if ctx.thorough else (12, 8)))
     lines, impl, descs, sigs = [], [], [], []
     dispatch_bad = 0
     sunday_walks = [24 if ctx.thorough else 3]
@@ -596,7 +596,7 @@ def pipeline(ctx, CS):
     from recognizers_text.extractor import ExtractResult
     en = CS[0]
     r = ctx.rng('dateparser-pipeline')
-    refs = references(ctx, 'dateparser-pipe-refs', *((80, 60) if ctx.thorough else (10, 8)))
+    refs = references(ctx, 'dateparser-pipe-refs', *((80, 60) if ctx.thorough else (6, 4)))
     cases = []
     for i, R in enumerate(refs):
         texts = english_texts(r, R, i)
